@@ -115,6 +115,12 @@ func bitRefs(w *World, fn *ssa.Function) []BitRef {
 			return
 		}
 		br := BitRef{Ins: ins, Cont: cont, Role: containerRole(cont), Pos: px, PosLin: fa.Lin(px)}
+		// a word of a re-sliced view c = x[lo:hi]: bit p of c is bit p + 64*lo of x
+		if off, ok := sliceOffset(fa, cont); ok {
+			br.PosLin = br.PosLin.Add(linConst(0).addScaled(off, 64))
+		} else {
+			br.Problem = "the word container is a merged re-sliced view whose offset cannot be determined"
+		}
 		posVN := fa.VN(stripConv(px))
 		checkOff := func(off ssa.Value) {
 			ox, j, ok := asLowMask(off)
